@@ -47,6 +47,34 @@ func genPairCase(t *rapid.T, optSets []string, tweak func(*gen.Profile)) PairCas
 	}
 	if ks := jdx.SetKeysOf(opts); ks != nil && gen.Chance(t, "keyedPair", 65) {
 		a, b := gen.KeyedPair(t, ks, p)
+		if gen.Chance(t, "respelledKeyTwin", 6) {
+			// one member twice, its first key value (an array) written in two
+			// member orders; b changes, keeps or drops it
+			m1 := map[string]val.V{"v": 1.0}
+			for i, k := range ks {
+				m1[k] = float64(7 + i)
+			}
+			m1[ks[0]] = []val.V{1.0, "tw"}
+			m2 := val.Clone(m1).(map[string]val.V)
+			m2[ks[0]] = []val.V{"tw", 1.0}
+			mb := val.Clone(m1).(map[string]val.V)
+			if gen.Chance(t, "twinSpelledOtherWay", 50) {
+				mb[ks[0]] = []val.V{"tw", 1.0}
+			}
+			mb["v"] = gen.Pick(t, "twinNewV", []val.V{2.0, 1.0, "s"})
+			if al, ok := a.([]val.V); ok {
+				if bl, ok := b.([]val.V); ok {
+					i := gen.Int(t, "twinAt1", 0, len(al))
+					al = append(al[:i:i], append([]val.V{m1}, al[i:]...)...)
+					j := gen.Int(t, "twinAt2", 0, len(al))
+					al = append(al[:j:j], append([]val.V{m2}, al[j:]...)...)
+					if gen.Chance(t, "twinStays", 75) {
+						bl = append(bl, mb)
+					}
+					a, b = al, bl
+				}
+			}
+		}
 		if gen.Chance(t, "exactDuplicates", 10) {
 			// the same member object twice: still one member of the set
 			a = gen.DupSome(t, a, 40)
@@ -277,6 +305,49 @@ func respelledCopies(keys []string, doc val.V) bool {
 					found = true
 				}
 				seen[asSet] = asList
+			}
+		case map[string]val.V:
+			for _, e := range x {
+				walk(e)
+			}
+		}
+	}
+	walk(doc)
+	return found
+}
+
+// permutedKeyTuplesWithin: one array of the document holds two members whose
+// key tuples are permutations of each other (the narrow form of the D21
+// predicate, for checks in which the two documents are not merged).
+func permutedKeyTuplesWithin(keys []string, doc val.V) bool {
+	found := false
+	var walk func(v val.V)
+	walk = func(v val.V) {
+		switch x := v.(type) {
+		case []val.V:
+			byBag := map[string]string{}
+			for _, e := range x {
+				walk(e)
+				o, ok := e.(map[string]val.V)
+				if !ok {
+					continue
+				}
+				parts := make([]string, 0, len(keys))
+				for _, k := range keys {
+					if kv, ok := o[k]; ok {
+						parts = append(parts, val.Canon(kv, val.Set))
+					} else {
+						parts = append(parts, "<absent>")
+					}
+				}
+				tuple := strings.Join(parts, "|")
+				sorted := append([]string{}, parts...)
+				sort.Strings(sorted)
+				bag := strings.Join(sorted, "|")
+				if prev, ok := byBag[bag]; ok && prev != tuple {
+					found = true
+				}
+				byBag[bag] = tuple
 			}
 		case map[string]val.V:
 			for _, e := range x {
